@@ -265,7 +265,16 @@ func serverScenario(pollers int, c1, c2, shutdown string, emfile bool) *vsched.S
 				// when Shutdown returns nil. (A teardown already in progress in another goroutine
 				// completes by itself; like Serve's own return it is judged at quiescence, above.)
 				if len(retBusy) != 0 {
-					add("shutdown-nil-while-handler-running", fmt.Sprintf("Shutdown returned nil while user callbacks were still executing on descriptors %v (tracked at that moment: %v, open: %v)", retBusy, retTracked, retOpen))
+					causeBusy := ""
+					for _, fd := range retBusy {
+						// the connection was still on its way through the accept path when Shutdown was
+						// called (OnConnect is started at the very end of it)
+						ci := l.last(fmt.Sprintf("connect fd=%d", fd))
+						if sc0 >= 0 && (ci < 0 || ci > sc0) {
+							causeBusy = " cause=accept-in-flight"
+						}
+					}
+					add("shutdown-nil-while-handler-running"+causeBusy, fmt.Sprintf("Shutdown returned nil while user callbacks were still executing on descriptors %v (tracked at that moment: %v, open: %v)", retBusy, retTracked, retOpen))
 				}
 			} else {
 				if shutdown != "shutdown-deadline" || !ctxFired {
